@@ -319,6 +319,16 @@ func RunCheck(cfg CheckConfig) int {
 				continue
 			}
 			okS, why := sampleAgrees(s, nr)
+			for try := 0; !okS && hd.Sched && try < 3; try++ {
+				// whole runs depend on the native heartbeat timer; under load a run can be cut
+				// short, so a disagreement is re-examined before it is believed
+				rr, rerr := nat.Run(pkg, []NativeItem{{ID: "retry", Harness: s.Harness, Vector: s.Vector}}, 8000)
+				if rerr != nil || rr["retry"] == nil {
+					break
+				}
+				nr = rr["retry"]
+				okS, why = sampleAgrees(s, nr)
+			}
 			if okS {
 				validated++
 			} else {
@@ -461,6 +471,29 @@ func RunCheck(cfg CheckConfig) int {
 		"load_s":                           round3(loadS),
 		"native_build_s":                   round3(nat.BuildS),
 		"solver":                           "z3 (one live process per worker, push/pop per path)",
+	}
+	schedComplete, schedPruned, schedAny := 0, 0, false
+	schedNames := map[string]bool{}
+	for _, hd := range pd.Harnesses {
+		if hd.Sched {
+			schedNames[hd.Name] = true
+		}
+	}
+	for _, row := range harnessRows {
+		if name, _ := row["harness"].(string); schedNames[name] {
+			schedAny = true
+			if bo, ok := row["by_outcome"].(map[string]int); ok {
+				schedComplete += bo["ok"]
+				schedPruned += bo["pruned"]
+			}
+		}
+	}
+	if schedAny {
+		ev.Coverage["schedule_exploration"] = map[string]interface{}{
+			"complete_interleavings": schedComplete,
+			"sleep_set_pruned_paths": schedPruned,
+			"note":                   "whole-run harnesses: goroutine interleavings at channel operations are explored exhaustively as forked decisions of the executor (sleep-set partial-order reduction); these choices are case splits, not solver variables; program data in the menu runs are concrete",
+		}
 	}
 	ev.Assumptions = append([]string{}, pd.Assumptions...)
 	os.MkdirAll(filepath.Join(cfg.Verif, "evidence"), 0755)
